@@ -27,6 +27,19 @@ pub struct Hello {
     pub extensions: Option<Vec<Ext>>,
 }
 
+/// fingerprints may contain arbitrary ASCII (first/last ALPN byte): keep the line protocol printable
+pub fn esc(s: &str) -> String {
+    let mut o = String::with_capacity(s.len());
+    for c in s.chars() {
+        if ('!'..='~').contains(&c) && c != '\\' {
+            o.push(c);
+        } else {
+            o.push_str(&format!("\\u{{{:x}}}", c as u32));
+        }
+    }
+    o
+}
+
 pub const GREASE: [u16; 16] = [
     0x0a0a, 0x1a1a, 0x2a2a, 0x3a3a, 0x4a4a, 0x5a5a, 0x6a6a, 0x7a7a, 0x8a8a, 0x9a9a, 0xaaaa, 0xbaba,
     0xcaca, 0xdada, 0xeaea, 0xfafa,
